@@ -1449,7 +1449,16 @@ impl Compiler {
                         self.compile_value_export(*id, target_register)?;
                     }
                 }
-                Node::Ignored(..) => {
+                Node::Ignored(_, maybe_type) => {
+                    if let Some(type_hint) = maybe_type {
+                        self.compile_assert_type(
+                            target_register,
+                            *type_hint,
+                            Some(id_or_ignored),
+                            ctx,
+                        )?;
+                    }
+
                     self.pop_register()?; // target_register
                 }
                 unexpected => {
